@@ -94,19 +94,22 @@ def rule_w3(ctx, F):
     text newly included or excluded.  Only ts_parser_new / _delete / _parse write the list or its cursor — in particular
     the range setter, which embedders call before *every* parse call, leaves them alone."""
     from cstores import stores
+    def touches(e):
+        # the lvalue / argument denotes (part of) TSParser.included_range_differences or .included_range_difference_index,
+        # whatever the parser pointer is called
+        return any(x.get("k") == "mem" and x.get("rec") == "TSParser" and str(x.get("f", "")).startswith("included_range_difference") for x in walk(e))
     seen = {}
     for fn in F.fn_list:
         n = 0
         for pt, node, l, op in stores(fn):
-            t = show(l)
-            if "self->included_range_difference" in t:
+            if touches(l):
                 n += 1
         for pt, c in fn.calls():
             if callee_name(c) in ("ts_range_array_intersects",):
                 continue
             for a in c.get("a", []):
-                t = show(a)
-                if t.startswith("&self->included_range_difference"):
+                a = strip(a)
+                if a.get("k") == "un" and a.get("op") == "&" and touches(a):
                     n += 1
         if n:
             seen[fn.name] = n
